@@ -1,128 +1,28 @@
-(** Proofs about [PV.Metadata.ValueOwner] (property C09), part 2: SetScopeValueOwner, the five
-    messages, the invariant and the consent theorem over all histories. *)
+(** Proofs about [PV.Metadata.ValueOwner] (property C09), part 2: mint / burn, SetScopeValueOwner,
+    the grouped sends of the bulk endpoints, multi-send delivery, the release of quarantined funds. *)
 From Coq Require Import ZArith NArith List Bool Lia.
 From PV Require Import Metadata.ValueOwner Proofs.ValueOwnerProofs.
 Import ListNotations.
 Open Scope Z_scope.
 
-(** ** Mint and burn *)
-Lemma mint_spec s d :
-  BankInv s -> tok s d = [] ->
-  let s1 := bank_mint s d 1 in
-  BankInv s1 /\ tok s1 d = [(MODULE, 1)] /\ (forall d', d' <> d -> tok s1 d' = tok s d') /\
-  scopes s1 = scopes s /\ markers s1 = markers s.
-Proof.
-  intros HB Ht. cbn zeta.
-  assert (Hs : sup s d = 0) by (destruct (HB d) as [(Hs & _)|(_ & h & Hh)]; [exact Hs|congruence]).
-  assert (Htok : forall d', tok (bank_mint s d 1) d' = if N.eqb d' d then [(MODULE, 1)] else tok s d').
-  { intros d'. unfold bank_mint, bank_add. unfold tok at 1. cbn [toks with_sups with_toks].
-    rewrite get_put. destruct (N.eqb d' d); [|reflexivity].
-    rewrite Ht. cbn [bal_of find]. rewrite set_bal_nil by discriminate. reflexivity. }
-  assert (Hsup : forall d', sup (bank_mint s d 1) d' = if N.eqb d' d then 1 else sup s d').
-  { intros d'. unfold bank_mint. rewrite sup_put. destruct (N.eqb d' d); [|reflexivity].
-    unfold bank_add. rewrite (sup_same s (with_toks s _) d) by reflexivity. rewrite Hs. reflexivity. }
-  split; [|split; [|split; [|split; reflexivity]]].
-  - intros d'. rewrite Htok, Hsup. destruct (N.eqb d' d); [|apply HB].
-    right. split; [reflexivity|]. exists MODULE. reflexivity.
-  - rewrite Htok, N.eqb_refl. reflexivity.
-  - intros d' Hne. rewrite Htok. apply N.eqb_neq in Hne. rewrite Hne. reflexivity.
-Qed.
+Lemma bankinv_wk s : BankInv s -> Wk s.
+Proof. intros HB d. destruct (HB d) as [(_ & Ht)|(_ & h & Ht)]; [left; exact Ht|right; exists h; exact Ht]. Qed.
 
-Lemma burn_spec s d s' :
-  BankInv s -> tok s d = [(MODULE, 1)] -> bank_burn s d 1 = Some s' ->
-  BankInv s' /\ tok s' d = [] /\ sup s' d = 0 /\ (forall d', d' <> d -> tok s' d' = tok s d') /\
-  scopes s' = scopes s.
-Proof.
-  intros HB Ht. unfold bank_burn, bank_sub. rewrite Ht, bal_of_single, N.eqb_refl.
-  cbn [Z.ltb Z.compare Pos.compare Pos.compare_cont]. replace (1 - 1) with 0 by reflexivity.
-  rewrite set_bal_single_zero. intros [= <-].
-  assert (Hs : sup s d = 1) by (destruct (HB d) as [(_ & Hn)|(Hs & _)]; [congruence|exact Hs]).
-  assert (Htok : forall d', tok (with_sups (with_toks s (put (toks s) d []))
-                                  (put (sups (with_toks s (put (toks s) d []))) d
-                                       (sup (with_toks s (put (toks s) d [])) d - 1))) d' =
-                            if N.eqb d' d then [] else tok s d').
-  { intros d'. unfold tok at 1. cbn [toks with_sups with_toks]. rewrite get_put.
-    destruct (N.eqb d' d); reflexivity. }
-  assert (Hsup : forall d', sup (with_sups (with_toks s (put (toks s) d []))
-                                  (put (sups (with_toks s (put (toks s) d []))) d
-                                       (sup (with_toks s (put (toks s) d [])) d - 1))) d' =
-                            if N.eqb d' d then 0 else sup s d').
-  { intros d'. rewrite sup_put. destruct (N.eqb d' d); [|reflexivity].
-    rewrite (sup_same s (with_toks s _) d) by reflexivity. rewrite Hs. reflexivity. }
-  split; [|split; [|split; [|split; [|reflexivity]]]].
-  - intros d'. rewrite Htok, Hsup. destruct (N.eqb d' d); [left; split; reflexivity|apply HB].
-  - rewrite Htok, N.eqb_refl. reflexivity.
-  - rewrite Hsup, N.eqb_refl. reflexivity.
-  - intros d' Hne. rewrite Htok. apply N.eqb_neq in Hne. rewrite Hne. reflexivity.
-Qed.
+(** What the transfers of one operation leave untouched besides balances, supplies and records. *)
+Definition env_eq (s s' : state) : Prop :=
+  scopes s' = scopes s /\ markers s' = markers s /\ sanctioned s' = sanctioned s /\
+  qopt s' = qopt s /\ qauto s' = qauto s.
 
-(** One unit sent under the invariant. *)
-Lemma send_one_spec s from to d agents s' :
-  BankInv s -> send_one s from to d 1 agents = Some s' ->
-  restrict (markers s) from to agents = true /\ tok s d = [(from, 1)] /\
-  BankInv s' /\ tok s' d = [(to, 1)] /\ (forall d', d' <> d -> tok s' d' = tok s d') /\
-  scopes s' = scopes s /\ sups s' = sups s.
-Proof.
-  intros HB. unfold send_one. destruct (restrict (markers s) from to agents); [|discriminate].
-  intros H. split; [reflexivity|].
-  assert (S : sent (fun _ => True) s s' to) by (apply (move_sent (fun _ => True) s from to d 1 s' HB Z.lt_0_1 I H)).
-  destruct (move_inv _ _ _ _ _ _ HB Z.lt_0_1 H) as (Ht & _ & ->).
-  split; [exact Ht|]. split; [eapply sent_bankinv; eassumption|].
-  split; [rewrite moved_tok, N.eqb_refl; reflexivity|].
-  split; [|split; reflexivity].
-  intros d' Hne. rewrite moved_tok. apply N.eqb_neq in Hne. rewrite Hne. reflexivity.
-Qed.
+Lemma env_eq_refl s : env_eq s s.
+Proof. repeat split. Qed.
+Lemma env_eq_trans a b c : env_eq a b -> env_eq b c -> env_eq a c.
+Proof. intros (H1 & H2 & H3 & H4 & H5) (G1 & G2 & G3 & G4 & G5). repeat split; congruence. Qed.
+Lemma frame_env s s' : frame s s' -> env_eq s s'.
+Proof. intros (H1 & _ & _ & H4 & _ & _ & _ & H8 & H9 & H10 & _). repeat split; assumption. Qed.
+Lemma env_qdest s s' f t : env_eq s s' -> qdest s' f t = qdest s f t.
+Proof. intros (_ & _ & _ & Ho & Ha). unfold qdest, quarantines, is_auto. rewrite Ho, Ha. reflexivity. Qed.
 
-(** ** SetScopeValueOwner *)
-Definition vo_src (s : state) (d : sid) : addr :=
-  match value_owner s d with Some c => c | None => MODULE end.
-Definition vo_dst (newvo : option addr) : addr :=
-  match newvo with Some p => p | None => MODULE end.
-
-Lemma set_vo_spec s d newvo agents s' :
-  BankInv s -> set_vo s d newvo agents = Some s' ->
-  scopes s' = scopes s /\ BankInv s' /\
-  (forall d', d' <> d -> tok s' d' = tok s d') /\
-  tok s' d = match newvo with Some p => [(p, 1)] | None => [] end /\
-  (value_owner s d <> newvo -> restrict (markers s) (vo_src s d) (vo_dst newvo) agents = true).
-Proof.
-  intros HB. unfold set_vo.
-  destruct (match newvo with Some p => mem p (blocked s) | None => false end); [discriminate|].
-  unfold vo_src, value_owner.
-  destruct (HB d) as [(Hs & Ht)|(Hs & h & Ht)]; rewrite Ht; cbn [denom_owner].
-  - (* no token yet *)
-    destruct newvo as [p|]; cbn [opt_addr_eqb vo_dst].
-    + destruct (mint_spec s d HB Ht) as (HB1 & Ht1 & Ho1 & Hsc1 & Hm1).
-      destruct (send_one (bank_mint s d 1) MODULE p d 1 agents) as [s2|] eqn:E; [|discriminate].
-      intros [= <-]. destruct (send_one_spec _ _ _ _ _ _ HB1 E) as (Hr & _ & HB2 & Ht2 & Ho2 & Hsc2 & _).
-      split; [congruence|]. split; [exact HB2|]. split; [|split; [exact Ht2|]].
-      * intros d' Hne. rewrite Ho2, Ho1 by exact Hne. reflexivity.
-      * intros _. rewrite <- Hm1. exact Hr.
-    + intros [= <-]. split; [reflexivity|]. split; [exact HB|]. split; [reflexivity|].
-      split; [exact Ht|]. intros Hc. contradiction Hc. reflexivity.
-  - (* held by h *)
-    destruct newvo as [p|]; cbn [opt_addr_eqb vo_dst].
-    + destruct (N.eqb_spec h p) as [->|Hne].
-      * intros [= <-]. split; [reflexivity|]. split; [exact HB|]. split; [reflexivity|].
-        split; [exact Ht|]. intros Hc. contradiction Hc. reflexivity.
-      * destruct (send_one s h p d 1 agents) as [s2|] eqn:E; [|discriminate]. intros [= <-].
-        destruct (send_one_spec _ _ _ _ _ _ HB E) as (Hr & _ & HB2 & Ht2 & Ho2 & Hsc2 & _).
-        split; [exact Hsc2|]. split; [exact HB2|]. split; [exact Ho2|]. split; [exact Ht2|].
-        intros _. exact Hr.
-    + destruct (send_one s h MODULE d 1 agents) as [s2|] eqn:E; [|discriminate]. intros Hb.
-      destruct (send_one_spec _ _ _ _ _ _ HB E) as (Hr & _ & HB2 & Ht2 & Ho2 & Hsc2 & _).
-      destruct (burn_spec _ _ _ HB2 Ht2 Hb) as (HB3 & Ht3 & _ & Ho3 & Hsc3).
-      split; [congruence|]. split; [exact HB3|]. split; [|split; [exact Ht3|]].
-      * intros d' Hne. rewrite Ho3, Ho2 by exact Hne. reflexivity.
-      * intros _. exact Hr.
-Qed.
-
-(** ** What a step must satisfy *)
-Definition good_step (s : state) (o : op) (s' : state) : Prop :=
-  Inv s' /\
-  (forall d h, holder s d = Some h -> holder s' d <> Some h -> consent s o h) /\
-  (forall d n, holder s' d = Some n -> holder s d <> Some n -> deposit_ok s o n).
-
+(** ** Holders *)
 Lemma holder_single s d h : tok s d = [(h, 1)] -> holder s d = Some h.
 Proof. intros H. unfold holder, value_owner. rewrite H. reflexivity. Qed.
 
@@ -138,384 +38,261 @@ Proof. intros H. unfold holder, value_owner. rewrite H. reflexivity. Qed.
 Lemma holder_same s s' d : tok s' d = tok s d -> holder s' d = holder s d.
 Proof. intros H. unfold holder, value_owner. rewrite H. reflexivity. Qed.
 
-(** Consent from the two checks every metadata message runs: the signer check on the holder and
-    the send restriction with the signers as transfer agents. *)
-Lemma consent_from_checks s o k sg existing proposed agents used h to :
-  signers_of o = sg -> kind_of o = Some k -> k <> KAddData ->
-  vo_signers s existing proposed sg k = Some (agents, used) ->
-  In h existing -> proposed <> Some h ->
-  restrict (markers s) h to agents = true ->
-  consent s o h.
+(** ** Mint and burn *)
+Lemma mint_spec s d :
+  BankInv s -> tok s d = [] ->
+  let s1 := bank_mint s d 1 in
+  Wk s1 /\ tok s1 d = [(MODULE, 1)] /\ (forall d', d' <> d -> tok s1 d' = tok s d') /\
+  sup s1 d = 1 /\ (forall d', d' <> d -> sup s1 d' = sup s d') /\ env_eq s s1 /\ qrecs s1 = qrecs s.
 Proof.
-  intros Hsg Hk Hka Hv Hin Hne Hr.
-  destruct (vo_signers_spec _ _ _ _ _ _ _ _ Hv Hin Hne) as (Ha & [H1|[H2|(g & Hg & Hgr)]]).
-  - left. rewrite Hsg. eapply effective_signers_incl. rewrite <- Ha. exact H1.
-  - right. right. unfold is_marker in H2. destruct (marker_of s h) as [m|] eqn:Em; [|discriminate].
-    destruct (restrict_from _ _ _ _ _ Hr Em) as (g & Hg & Hw).
-    exists m, g. split; [reflexivity|]. split; [|exact Hw].
-    rewrite Hsg. eapply effective_signers_incl. rewrite <- Ha. exact Hg.
-  - right. left. exists k, g. split; [exact Hk|]. split; [|rewrite <- (authz_plain s h g k Hka); exact Hgr].
-    rewrite Hsg. eapply effective_signers_incl. rewrite <- Ha. exact Hg.
+  intros HB Ht. cbn zeta.
+  assert (Hs : sup s d = 0) by (destruct (HB d) as [(Hs & _)|(_ & h & Hh)]; [exact Hs|congruence]).
+  assert (Htok : forall d', tok (bank_mint s d 1) d' = if N.eqb d' d then [(MODULE, 1)] else tok s d').
+  { intros d'. unfold bank_mint, bank_add. unfold tok at 1. cbn [toks with_sups with_toks].
+    rewrite get_put. destruct (N.eqb d' d); [|reflexivity].
+    rewrite Ht. cbn [bal_of find]. rewrite set_bal_nil by discriminate. reflexivity. }
+  assert (Hsup : forall d', sup (bank_mint s d 1) d' = if N.eqb d' d then 1 else sup s d').
+  { intros d'. unfold bank_mint. rewrite sup_put. destruct (N.eqb d' d); [|reflexivity].
+    unfold bank_add. rewrite (sup_same s (with_toks s _) d) by reflexivity. rewrite Hs. reflexivity. }
+  split; [|split; [|split; [|split; [|split; [|split; [repeat split|reflexivity]]]]]].
+  - intros d'. rewrite Htok. destruct (N.eqb d' d); [right; exists MODULE; reflexivity|].
+    apply bankinv_wk. exact HB.
+  - rewrite Htok, N.eqb_refl. reflexivity.
+  - intros d' Hne. rewrite Htok. apply N.eqb_neq in Hne. rewrite Hne. reflexivity.
+  - rewrite Hsup, N.eqb_refl. reflexivity.
+  - intros d' Hne. rewrite Hsup. apply N.eqb_neq in Hne. rewrite Hne. reflexivity.
 Qed.
 
-Lemma deposit_from_restrict s o sg from n agents :
-  signers_of o = sg -> agents <> [] -> (forall g, In g agents -> In g sg) ->
-  restrict (markers s) from n agents = true -> deposit_ok s o n.
+Lemma burn_spec s d s' :
+  bank_burn s d 1 = Some s' -> (exists x, tok s d = [(x, 1)]) -> sup s d = 1 ->
+  tok s d = [(MODULE, 1)] /\ tok s' d = [] /\ sup s' d = 0 /\
+  (forall d', d' <> d -> tok s' d' = tok s d' /\ sup s' d' = sup s d') /\ env_eq s s' /\ qrecs s' = qrecs s.
 Proof.
-  intros Hsg Hne Hincl Hr m Hm Hres.
-  destruct (restrict_to _ _ _ _ _ Hr Hm Hres) as [(Hnil & _)|(g & Hg & Hd)]; [contradiction|].
-  exists g. split; [rewrite Hsg; apply Hincl; exact Hg|exact Hd].
+  unfold bank_burn, bank_sub. intros H (x & Ht) Hs. rewrite Ht, bal_of_single in H.
+  destruct (N.eqb_spec x MODULE) as [Heq|Hne]; [subst x|cbn in H; discriminate].
+  cbn [Z.ltb Z.compare Pos.compare Pos.compare_cont] in H. replace (1 - 1) with 0 in H by reflexivity.
+  rewrite set_bal_single_zero in H. injection H as <-.
+  assert (Htok : forall d', tok (with_sups (with_toks s (put (toks s) d []))
+                                  (put (sups (with_toks s (put (toks s) d []))) d
+                                       (sup (with_toks s (put (toks s) d [])) d - 1))) d' =
+                            if N.eqb d' d then [] else tok s d').
+  { intros d'. unfold tok at 1. cbn [toks with_sups with_toks]. rewrite get_put.
+    destruct (N.eqb d' d); reflexivity. }
+  assert (Hsup : forall d', sup (with_sups (with_toks s (put (toks s) d []))
+                                  (put (sups (with_toks s (put (toks s) d []))) d
+                                       (sup (with_toks s (put (toks s) d [])) d - 1))) d' =
+                            if N.eqb d' d then 0 else sup s d').
+  { intros d'. rewrite sup_put. destruct (N.eqb d' d); [|reflexivity].
+    rewrite (sup_same s (with_toks s _) d) by reflexivity. rewrite Hs. reflexivity. }
+  split; [exact Ht|]. split; [rewrite Htok, N.eqb_refl; reflexivity|].
+  split; [rewrite Hsup, N.eqb_refl; reflexivity|]. split; [|split; [repeat split|reflexivity]].
+  intros d' Hne. rewrite Htok, Hsup. apply N.eqb_neq in Hne. rewrite Hne. split; reflexivity.
 Qed.
 
-(** When ValidateScopeValueOwnersSigners did not return early, the agents are the effective signers. *)
-Lemma vo_signers_agents s existing proposed sg k agents used :
-  vo_signers s existing proposed sg k = Some (agents, used) ->
-  (exists e, existing = [e] /\ proposed = Some e /\ agents = []) \/ agents = effective_signers s sg.
+Lemma wk_after s s' (l : list sid) x :
+  Wk s -> (forall d, tok s' d = if mem d l then [(x, 1)] else tok s d) -> Wk s'.
+Proof. intros HW H d. rewrite H. destruct (mem d l); [right; exists x; reflexivity|apply HW]. Qed.
+
+(** One unit of one denom sent. *)
+Lemma send_one_spec s from to d agents s' :
+  Wk s -> send s from to [(d, 1)] agents false = Some s' ->
+  restrict (markers s) from to agents = true /\ mem from (sanctioned s) = false /\ frame s s' /\
+  tok s d = [(from, 1)] /\ tok s' d = [(qdest s from to, 1)] /\ (forall d', d' <> d -> tok s' d' = tok s d') /\
+  Wk s'.
 Proof.
-  unfold vo_signers.
-  destruct (match existing with [x] => opt_is proposed x | _ => false end) eqn:Eearly.
-  - destruct existing as [|x [|y r]]; try discriminate. apply opt_is_true in Eearly.
-    intros [= <- <-]. left. exists x. auto.
-  - destruct (vo_check s existing proposed (effective_signers s sg) k); [|discriminate].
-    intros [= <- <-]. right. reflexivity.
+  intros HW H. destruct (send_spec _ _ _ _ _ _ _ HW H) as (Hr & Hs & F & Hall & Ht & _).
+  split; [exact Hr|]. split; [exact Hs|]. split; [exact F|].
+  split; [apply (Hall (d, 1)); left; reflexivity|].
+  cbn [denoms map fst] in Ht. split; [|split].
+  - rewrite Ht, mem_cons, N.eqb_refl. reflexivity.
+  - intros d' Hne. rewrite Ht, mem_cons. apply N.eqb_neq in Hne. rewrite Hne. reflexivity.
+  - eapply wk_after; [exact HW|exact Ht].
 Qed.
 
-(** ** MsgWriteScope *)
-Lemma step_write_good s sg d parties spec data rollup vo s' :
-  Inv s -> step_write s sg d parties spec data rollup vo = Some s' ->
-  good_step s (OWrite sg d parties spec data rollup vo) s'.
+(** ** SetScopeValueOwner *)
+Lemma set_vo_spec s d newvo agents s' :
+  BankInv s -> set_vo s d newvo agents = Some s' ->
+  env_eq s s' /\
+  (forall d', d' <> d -> tok s' d' = tok s d' /\ sup s' d' = sup s d') /\
+  ((value_owner s d = newvo /\ tok s' d = tok s d /\ sup s' d = sup s d) \/
+   (exists p, newvo = Some p /\ tok s d = [] /\ tok s' d = [(qdest s MODULE p, 1)] /\ sup s' d = 1 /\
+              restrict (markers s) MODULE p agents = true) \/
+   (exists h p, newvo = Some p /\ h <> p /\ tok s d = [(h, 1)] /\ tok s' d = [(qdest s h p, 1)] /\
+                sup s' d = sup s d /\ restrict (markers s) h p agents = true /\ mem h (sanctioned s) = false) \/
+   (exists h, newvo = None /\ tok s d = [(h, 1)] /\ tok s' d = [] /\ sup s' d = 0 /\ qdest s h MODULE = MODULE /\
+              restrict (markers s) h MODULE agents = true /\ mem h (sanctioned s) = false)).
 Proof.
-  intros (HB & HT). unfold step_write.
-  destruct (is_nil sg || negb (parties_basic parties rollup)) eqn:Eb; [discriminate|].
-  assert (Hsg : sg <> []).
-  { apply is_nil_false. apply orb_false_elim in Eb. apply Eb. }
-  set (prop := {| sc_parties := parties; sc_spec := spec; sc_data := data; sc_rollup := rollup |}).
-  destruct (match scope_of s d, vo with Some _, Some _ => denom_owner (tok s d) | _, _ => Some None end)
-    as [cur|] eqn:Ecur; [|discriminate].
-  match goal with |- match ?P with _ => _ end = _ -> _ => destruct P as [pused|]; [|discriminate] end.
-  destruct (vo_signers s (opt_list cur) vo sg KWrite) as [[agents used]|] eqn:Ev; [|discriminate].
-  destruct (negb (sc_check s (used ++ pused) KWrite true sg)); [discriminate|].
-  destruct vo as [p|].
-  - (* a value owner is proposed *)
-    destruct (set_vo s d (Some p) agents) as [s1|] eqn:Es; [|discriminate]. intros [= <-].
-    destruct (set_vo_spec _ _ _ _ _ HB Es) as (Hsc & HB1 & Ho & Ht & Hr).
-    (* the looked-up current owner is the real one *)
-    assert (Hcur : forall h, holder s d = Some h -> cur = Some h).
-    { intros h Hh. pose proof (holder_inv _ _ _ HB Hh) as Hth.
-      destruct (scope_of s d) eqn:Esc; [|exfalso; apply (HT d); [rewrite Hth; discriminate|exact Esc]].
-      rewrite Hth in Ecur. cbn in Ecur. congruence. }
-    assert (Htok' : forall d', tok (with_scopes s1 (put (scopes s1) d (Some prop))) d' = tok s1 d') by reflexivity.
-    split; [|split].
-    + split.
-      * intros d'. rewrite (sup_same s1 _ d') by reflexivity. rewrite Htok'. apply HB1.
-      * intros d' Hne. rewrite scope_of_put. destruct (N.eqb_spec d' d) as [->|Hd]; [discriminate|].
-        rewrite (scope_of_same s s1 d' Hsc). apply HT. rewrite Htok' in Hne. rewrite <- Ho by exact Hd. exact Hne.
-    + intros d' h Hh Hch. destruct (N.eq_dec d' d) as [->|Hd].
-      2:{ exfalso. apply Hch. rewrite <- Hh. apply holder_same. rewrite Htok'. apply Ho. exact Hd. }
-      assert (Hp : Some p <> Some h).
-      { intros [= ->]. apply Hch. apply holder_single. rewrite Htok'. exact Ht. }
-      rewrite (Hcur h Hh) in Ev. cbn [opt_list] in Ev.
-      eapply (consent_from_checks s _ KWrite sg [h] (Some p) agents used h p); try reflexivity; try exact Ev.
-      * discriminate.
-      * left. reflexivity.
-      * exact Hp.
-      * assert (Hvo : value_owner s d = Some h) by exact Hh.
-        specialize (Hr ltac:(rewrite Hvo; congruence)). unfold vo_src in Hr. rewrite Hvo in Hr. exact Hr.
-    + intros d' n Hn Hch. destruct (N.eq_dec d' d) as [->|Hd].
-      2:{ exfalso. apply Hch. rewrite <- Hn. symmetry. apply holder_same. rewrite Htok'. apply Ho. exact Hd. }
-      assert (n = p).
-      { unfold holder, value_owner in Hn. rewrite Htok', Ht in Hn. cbn in Hn. congruence. } subst n.
-      assert (Hvo : value_owner s d <> Some p) by exact Hch.
-      specialize (Hr Hvo). cbn [vo_dst] in Hr.
-      destruct (vo_signers_agents _ _ _ _ _ _ _ Ev) as [(e & He & [= ->] & _)|Ha].
-      * exfalso. destruct cur as [c|]; cbn [opt_list] in He; [|discriminate]. injection He as ->.
-        destruct (scope_of s d); [|discriminate]. apply Hvo. unfold value_owner.
-        destruct (denom_owner (tok s d)) as [[x|]|]; congruence.
-      * eapply deposit_from_restrict; [reflexivity| | |exact Hr].
-        -- rewrite Ha. apply effective_signers_nonempty. exact Hsg.
-        -- intros g Hg. rewrite Ha in Hg. eapply effective_signers_incl. exact Hg.
-  - (* no value owner field: the token is not touched *)
-    intros [= <-].
-    assert (Htok' : forall d', tok (with_scopes s (put (scopes s) d (Some prop))) d' = tok s d') by reflexivity.
-    split; [|split].
-    + split.
-      * intros d'. rewrite (sup_same s _ d') by reflexivity. rewrite Htok'. apply HB.
-      * intros d' Hne. rewrite scope_of_put. destruct (N.eqb_spec d' d) as [->|Hd]; [discriminate|].
-        apply HT. exact Hne.
-    + intros d' h Hh Hch. exfalso. apply Hch. rewrite <- Hh. apply holder_same. apply Htok'.
-    + intros d' n Hn Hch. exfalso. apply Hch. rewrite <- Hn. symmetry. apply holder_same. apply Htok'.
+  intros HB. unfold set_vo.
+  destruct (match newvo with Some p => mem p (blocked s) | None => false end); [discriminate|].
+  unfold value_owner.
+  destruct (HB d) as [(Hs & Ht)|(Hs & h & Ht)]; rewrite Ht; cbn [denom_owner].
+  - (* no token yet *)
+    destruct newvo as [p|]; cbn [opt_addr_eqb].
+    + destruct (mint_spec s d HB Ht) as (HW1 & Ht1 & Ho1 & Hs1 & Hso1 & E1 & _).
+      destruct (send (bank_mint s d 1) MODULE p [(d, 1)] agents false) as [s2|] eqn:E; [|discriminate].
+      intros [= <-]. destruct (send_one_spec _ _ _ _ _ _ HW1 E) as (Hr & _ & F & _ & Ht2 & Ho2 & _).
+      split; [eapply env_eq_trans; [exact E1|apply frame_env; exact F]|]. split.
+      * intros d' Hne. rewrite (Ho2 d' Hne), (Ho1 d' Hne), (sup_same _ _ d' (frame_sups _ _ F)), (Hso1 d' Hne).
+        split; reflexivity.
+      * right. left. exists p. split; [reflexivity|]. split; [first [exact Ht|reflexivity]|].
+        split; [rewrite Ht2; rewrite (env_qdest _ _ _ _ E1); reflexivity|].
+        split; [rewrite (sup_same _ _ d (frame_sups _ _ F)); exact Hs1|].
+        destruct E1 as (_ & Hm & _). rewrite <- Hm. exact Hr.
+    + intros [= <-]. split; [apply env_eq_refl|]. split; [intros; split; reflexivity|].
+      left. split; [reflexivity|]. split; [rewrite Ht; reflexivity|reflexivity].
+  - (* held by h *)
+    destruct newvo as [p|]; cbn [opt_addr_eqb].
+    + destruct (N.eqb_spec h p) as [->|Hne].
+      * intros [= <-]. split; [apply env_eq_refl|]. split; [intros; split; reflexivity|].
+        left. split; [reflexivity|]. split; [rewrite Ht; reflexivity|reflexivity].
+      * destruct (send s h p [(d, 1)] agents false) as [s2|] eqn:E; [|discriminate]. intros [= <-].
+        destruct (send_one_spec _ _ _ _ _ _ (bankinv_wk _ HB) E) as (Hr & Hsa & F & _ & Ht2 & Ho2 & _).
+        split; [apply frame_env; exact F|]. split.
+        -- intros d' Hd. rewrite (Ho2 d' Hd), (sup_same _ _ d' (frame_sups _ _ F)). split; reflexivity.
+        -- right. right. left. exists h, p. split; [reflexivity|]. split; [exact Hne|]. split; [first [exact Ht|reflexivity]|].
+           split; [exact Ht2|]. split; [apply sup_same; apply frame_sups; exact F|]. split; assumption.
+    + destruct (send s h MODULE [(d, 1)] agents false) as [s2|] eqn:E; [|discriminate]. intros Hb.
+      destruct (send_one_spec _ _ _ _ _ _ (bankinv_wk _ HB) E) as (Hr & Hsa & F & _ & Ht2 & Ho2 & _).
+      assert (Hs2 : sup s2 d = 1) by (rewrite (sup_same _ _ d (frame_sups _ _ F)); exact Hs).
+      destruct (burn_spec _ _ _ Hb (ex_intro _ _ Ht2) Hs2) as (Hm & Ht3 & Hs3 & Ho3 & E3 & _).
+      split; [eapply env_eq_trans; [apply frame_env; exact F|exact E3]|]. split.
+      * intros d' Hd. destruct (Ho3 d' Hd) as (A & B). rewrite A, B, (Ho2 d' Hd), (sup_same _ _ d' (frame_sups _ _ F)).
+        split; reflexivity.
+      * right. right. right. exists h. split; [reflexivity|]. split; [first [exact Ht|reflexivity]|]. split; [exact Ht3|].
+        split; [exact Hs3|]. split; [|split; assumption]. rewrite Ht2 in Hm. congruence.
 Qed.
 
-(** ** MsgDeleteScope *)
-Lemma step_delete_spec s sg d s' :
-  Inv s -> step_delete s sg d = Some s' ->
-  good_step s (ODelete sg d) s' /\ sup s' d = 0 /\ tok s' d = [] /\ scope_of s' d = None.
+(** ** Grouped sends of the bulk endpoints *)
+Lemma group_In links f d : In d (group links f) <-> In (f, d) links.
 Proof.
-  intros (HB & HT). unfold step_delete.
-  destruct (is_nil sg) eqn:Eb; [discriminate|].
-  destruct (scope_of s d) as [e|] eqn:Esc; [|discriminate].
-  destruct (existing_signed s e (get (specs s) (sc_spec e)) sg KDelete) as [pused|]; [|discriminate].
-  destruct (denom_owner (tok s d)) as [cur|] eqn:Ecur; [|discriminate].
-  destruct (vo_signers s (opt_list cur) None sg KDelete) as [[agents used]|] eqn:Ev; [|discriminate].
-  destruct (negb (sc_check s (used ++ pused) KDelete true sg)); [discriminate|].
-  destruct (set_vo s d None agents) as [s1|] eqn:Es; [|discriminate]. intros [= <-].
-  destruct (set_vo_spec _ _ _ _ _ HB Es) as (Hsc & HB1 & Ho & Ht & Hr).
-  assert (Htok' : forall d', tok (with_scopes s1 (put (scopes s1) d None)) d' = tok s1 d') by reflexivity.
-  assert (HB' : BankInv (with_scopes s1 (put (scopes s1) d None))).
-  { intros d'. rewrite (sup_same s1 _ d') by reflexivity. rewrite Htok'. apply HB1. }
-  split; [split; [|split]|].
-  - split; [exact HB'|].
-    intros d' Hne. rewrite scope_of_put. destruct (N.eqb_spec d' d) as [->|Hd].
-    + rewrite Htok', Ht in Hne. contradiction.
-    + rewrite (scope_of_same s s1 d' Hsc). apply HT. rewrite Htok' in Hne. rewrite <- Ho by exact Hd. exact Hne.
-  - intros d' h Hh Hch. destruct (N.eq_dec d' d) as [->|Hd].
-    2:{ exfalso. apply Hch. rewrite <- Hh. apply holder_same. rewrite Htok'. apply Ho. exact Hd. }
-    pose proof (holder_inv _ _ _ HB Hh) as Hth. rewrite Hth in Ecur. cbn in Ecur. injection Ecur as <-.
-    cbn [opt_list] in Ev.
-    eapply (consent_from_checks s _ KDelete sg [h] None agents used h MODULE); try reflexivity; try exact Ev.
-    + discriminate.
-    + left. reflexivity.
-    + discriminate.
-    + assert (Hvo : value_owner s d = Some h) by exact Hh.
-      specialize (Hr ltac:(rewrite Hvo; discriminate)). unfold vo_src in Hr. rewrite Hvo in Hr. exact Hr.
-  - intros d' n Hn Hch. destruct (N.eq_dec d' d) as [->|Hd].
-    + exfalso. unfold holder, value_owner in Hn. rewrite Htok', Ht in Hn. discriminate.
-    + exfalso. apply Hch. rewrite <- Hn. symmetry. apply holder_same. rewrite Htok'. apply Ho. exact Hd.
-  - split; [|split].
-    + destruct (HB' d) as [(Hs & _)|(_ & h & Hh)]; [exact Hs|]. rewrite Htok', Ht in Hh. discriminate.
-    + rewrite Htok'. exact Ht.
-    + rewrite scope_of_put, N.eqb_refl. reflexivity.
+  unfold group. rewrite in_map_iff. split.
+  - intros ([f' d'] & Hd & Hin). cbn in Hd. subst d'. apply filter_In in Hin. destruct Hin as (Hin & He).
+    cbn in He. apply N.eqb_eq in He. subst f'. exact Hin.
+  - intros H. exists (f, d). split; [reflexivity|]. apply filter_In. split; [exact H|]. cbn. apply N.eqb_refl.
 Qed.
 
-(** ** Bulk update and migrate *)
-Lemma send_many_sent (P : addr -> Prop) s from to ds agents s' :
-  BankInv s -> (restrict (markers s) from to agents = true -> P from) ->
-  send_many s from to ds agents = Some s' -> sent P s s' to.
-Proof.
-  intros HB HP. unfold send_many. destruct (restrict (markers s) from to agents); [|discriminate].
-  apply move_all_sent; [exact HB|apply HP; reflexivity].
-Qed.
+(** [moved_from s0 links p agents done s d]: scope [d] is listed under a holder [f] already processed
+    and went from [f] to where a transfer from [f] to [p] ends up. *)
+Definition grp_moved (s0 : state) (links : list (addr * sid)) (p : addr) (agents : list addr) (done : list addr)
+  (s : state) (d : sid) : Prop :=
+  exists f, In (f, d) links /\ In f done /\ f <> p /\ tok s0 d = [(f, 1)] /\ tok s d = [(qdest s0 f p, 1)] /\
+            restrict (markers s0) f p agents = true /\ mem f (sanctioned s0) = false.
+Definition grp_kept (s0 : state) (links : list (addr * sid)) (p : addr) (done : list addr) (s : state) (d : sid) : Prop :=
+  (forall f, In (f, d) links -> ~ In f done \/ f = p) /\ tok s d = tok s0 d.
 
-Lemma send_groups_sent mks (froms0 : list addr) links p agents : forall froms s s',
-  BankInv s -> markers s = mks -> (forall f, In f froms -> In f froms0) ->
+Lemma send_groups_spec s0 links p agents :
+  (forall f d, In (f, d) links -> tok s0 d = [(f, 1)]) ->
+  forall froms done s s',
+  NoDup (done ++ froms) -> Wk s -> frame s0 s ->
+  (forall d, grp_moved s0 links p agents done s d \/ grp_kept s0 links p done s d) ->
   send_groups s froms links p agents = Some s' ->
-  sent (fun f => In f froms0 /\ restrict mks f p agents = true) s s' p.
+  frame s0 s' /\ Wk s' /\
+  (forall d, grp_moved s0 links p agents (done ++ froms) s' d \/ grp_kept s0 links p (done ++ froms) s' d).
 Proof.
-  induction froms as [|f r IH]; intros s s' HB Hm Hin; cbn [send_groups].
-  - intros [= <-]. apply sent_refl.
-  - destruct (N.eqb f p).
-    + apply IH; [exact HB|exact Hm|intros x Hx; apply Hin; right; exact Hx].
-    + destruct (send_many s f p _ agents) as [s1|] eqn:E; [|discriminate]. intros H.
-      assert (S1 : sent (fun f => In f froms0 /\ restrict mks f p agents = true) s s1 p).
-      { eapply send_many_sent; [exact HB| |exact E]. intros Hr. split; [apply Hin; left; reflexivity|].
-        rewrite <- Hm. exact Hr. }
-      eapply sent_trans; [exact S1|]. apply IH.
-      * eapply sent_bankinv; eassumption.
-      * destruct S1 as ((_ & _ & _ & Hmk & _) & _). congruence.
-      * intros x Hx. apply Hin. right. exact Hx.
-      * exact H.
+  intros Hlinks. induction froms as [|f r IH]; intros done s s' ND HW F HR; cbn [send_groups].
+  - intros [= <-]. rewrite app_nil_r. auto.
+  - assert (ND' : NoDup ((done ++ [f]) ++ r)) by (rewrite <- app_assoc; exact ND).
+    assert (Hf : ~ In f done).
+    { intros Hin. apply NoDup_remove_2 in ND. apply ND. apply in_or_app. left. exact Hin. }
+    replace (done ++ f :: r) with ((done ++ [f]) ++ r) by (rewrite <- app_assoc; reflexivity).
+    destruct (N.eqb_spec f p) as [->|Hfp].
+    + (* the proposed owner itself: skipped *)
+      apply IH; [exact ND'|exact HW|exact F|].
+      intros d. destruct (HR d) as [(f0 & A & B & C)|(A & B)].
+      * left. exists f0. split; [exact A|]. split; [apply in_or_app; left; exact B|exact C].
+      * right. split; [|exact B]. intros f0 Hin. destruct (A f0 Hin) as [Hn| ->]; [|right; reflexivity].
+        destruct (N.eq_dec f0 p) as [->|Hne]; [right; reflexivity|]. left. intros Hx.
+        apply in_app_or in Hx. destruct Hx as [Hx|[Hx|[]]]; [contradiction|congruence].
+    + destruct (send s f p (ones (group links f)) agents false) as [s1|] eqn:E; [|discriminate]. intros H.
+      destruct (send_spec _ _ _ _ _ _ _ HW E) as (Hr & Hs & F1 & Hall & Ht & _).
+      rewrite denoms_ones in Ht. cbn [dest] in Ht.
+      assert (HW1 : Wk s1) by (eapply wk_after; [exact HW|exact Ht]).
+      apply (IH (done ++ [f]) s1 s' ND' HW1 (frame_trans _ _ _ F F1)); [|exact H].
+      intros d. specialize (Ht d). destruct (mem d (group links f)) eqn:Em.
+      * apply mem_In in Em. apply group_In in Em. left. exists f. split; [exact Em|].
+        split; [apply in_or_app; right; left; reflexivity|]. split; [exact Hfp|].
+        split; [apply Hlinks; exact Em|]. split; [rewrite Ht, (frame_qdest _ _ _ _ F); reflexivity|].
+        split; [rewrite <- (frame_markers _ _ F); exact Hr|rewrite <- (frame_sanctioned _ _ F); exact Hs].
+      * destruct (HR d) as [(f0 & A & B & C & D & G & I)|(A & B)].
+        -- left. exists f0. split; [exact A|]. split; [apply in_or_app; left; exact B|].
+           split; [exact C|]. split; [exact D|]. split; [rewrite Ht; exact G|exact I].
+        -- right. split; [|rewrite Ht; exact B]. intros f0 Hin. destruct (A f0 Hin) as [Hn| ->]; [|right; reflexivity].
+           left. intros Hx. apply in_app_or in Hx. destruct Hx as [Hx|[Hx|[]]]; [contradiction|]. subst f0.
+           apply group_In in Hin. apply mem_In in Hin. congruence.
 Qed.
 
-Lemma update_core_good s o sg links p k s' :
-  Inv s -> signers_of o = sg -> kind_of o = Some k -> k <> KAddData -> sg <> [] ->
-  update_core s sg links p k = Some s' -> good_step s o s'.
+(** ** Multi-send delivery *)
+Lemma denoms_flat outs : denoms (flat_map (fun o : addr * list sid => ones (snd o)) outs) = flat_map snd outs.
 Proof.
-  intros (HB & HT) Hsg Hk Hka Hne. unfold update_core.
-  destruct (is_nil links); [discriminate|].
-  destruct (existsb (fun l => N.eqb (fst l) p) links); [discriminate|].
-  set (froms := dedup (map fst links)).
-  destruct (vo_signers s froms (Some p) sg k) as [[agents used]|] eqn:Ev; [|discriminate].
-  destruct (mem p (blocked s)); [discriminate|]. intros H.
-  pose proof (send_groups_sent (markers s) froms links p agents froms s s' HB eq_refl (fun f Hf => Hf) H) as S.
-  split; [split; [eapply sent_bankinv; eassumption|eapply sent_tokscope; eassumption]|].
-  destruct S as (_ & S).
-  (* a changed holder: the token went from f (in froms, restriction passed) to p *)
-  assert (Hchg : forall d, holder s' d <> holder s d ->
-            exists f, In f froms /\ restrict (markers s) f p agents = true /\ tok s d = [(f, 1)] /\ tok s' d = [(p, 1)]).
-  { intros d Hd. destruct (S d) as [E|(f & (Hf & Hr) & A & B)].
-    - contradiction Hd. apply holder_same. exact E.
-    - exists f. auto. }
-  split.
-  - intros d h Hh Hch. destruct (Hchg d ltac:(congruence)) as (f & Hf & Hr & A & B).
-    rewrite (holder_single _ _ _ A) in Hh. injection Hh as ->.
-    assert (Hp : Some p <> Some h).
-    { intros [= ->]. apply Hch. apply holder_single. exact B. }
-    eapply consent_from_checks; try eassumption.
-  - intros d n Hn Hch. destruct (Hchg d ltac:(congruence)) as (f & Hf & Hr & A & B).
-    rewrite (holder_single _ _ _ B) in Hn. injection Hn as <-.
-    destruct (vo_signers_agents _ _ _ _ _ _ _ Ev) as [(e & He & [= <-] & _)|Ha].
-    + exfalso. rewrite He in Hf. destruct Hf as [<-|[]]. apply Hch.
-      rewrite (holder_single _ _ _ A). reflexivity.
-    + eapply deposit_from_restrict; [exact Hsg| | |exact Hr].
-      * rewrite Ha. apply effective_signers_nonempty. exact Hne.
-      * intros g Hg. rewrite Ha in Hg. eapply effective_signers_incl. exact Hg.
+  induction outs as [|[to ds] r IH]; [reflexivity|]. cbn [flat_map snd]. unfold denoms in *.
+  rewrite map_app, IH. f_equal. apply denoms_ones.
 Qed.
 
-Lemma step_update_good s sg ds p s' :
-  Inv s -> step_update s sg ds p = Some s' -> good_step s (OUpdate sg ds p) s'.
+Definition dlv_moved (sx : state) (from : addr) (outs : list (addr * list sid)) (s : state) (d : sid) : Prop :=
+  exists to ds, In (to, ds) outs /\ In d ds /\ tok s d = [(qdest sx from to, 1)] /\
+                restrict (markers sx) from to [] = true /\ mem from (sanctioned sx) = false.
+
+Lemma deliver_spec from : forall outs sx s',
+  NoDup (flat_map snd outs) -> (forall d, In d (flat_map snd outs) -> tok sx d = []) ->
+  deliver sx from outs = Some s' ->
+  frame sx s' /\
+  forall d, (In d (flat_map snd outs) /\ dlv_moved sx from outs s' d) \/
+            (~ In d (flat_map snd outs) /\ tok s' d = tok sx d).
 Proof.
-  intros HI. unfold step_update.
-  destruct (is_nil sg || is_nil ds) eqn:Eb; [discriminate|].
-  destruct (links_of s [] ds) as [links|]; [|discriminate]. intros H.
-  eapply update_core_good; [exact HI|reflexivity|reflexivity|discriminate| |exact H].
-  apply is_nil_false. apply orb_false_elim in Eb. apply Eb.
+  induction outs as [|[to ds] r IH]; intros sx s' ND Hnil; cbn [deliver].
+  - intros [= <-]. split; [apply frame_refl|]. intros d. right. split; [intros []|reflexivity].
+  - destruct (apply_restrictions sx from to (ones ds) [] false) as [[s1 to']|] eqn:Ea; [|discriminate]. intros H.
+    destruct (apply_restrictions_spec _ _ _ _ _ _ _ _ Ea) as (Hr & Hs & Hto & F1 & T1 & _). cbn [dest] in Hto. subst to'.
+    cbn [flat_map snd] in ND, Hnil.
+    destruct (NoDup_app_inv _ _ ND) as (ND1 & ND2 & Hdisj).
+    destruct (add_coins_spec (qdest sx from to) (ones ds) s1) as (F2 & _ & Ht2).
+    { rewrite denoms_ones. exact ND1. }
+    { intros e He. apply (in_ones _ _ He). }
+    { intros e He. rewrite (tok_toks _ _ _ T1). apply Hnil. apply in_or_app. left. apply (in_ones _ _ He). }
+    rewrite denoms_ones in Ht2.
+    set (s2 := add_coins s1 (qdest sx from to) (ones ds)) in *.
+    assert (F02 : frame sx s2) by (eapply frame_trans; eassumption).
+    destruct (IH s2 s' ND2) as (F3 & HR); [|exact H|].
+    { intros d Hd. rewrite Ht2. destruct (mem d ds) eqn:Em.
+      - apply mem_In in Em. exfalso. apply (Hdisj d Em Hd).
+      - rewrite (tok_toks _ _ _ T1). apply Hnil. apply in_or_app. right. exact Hd. }
+    split; [eapply frame_trans; eassumption|]. cbn [flat_map snd].
+    intros d. destruct (HR d) as [(Hin & (to2 & ds2 & A & B & C & D & E))|(Hnin & Hsame)].
+    + left. split; [apply in_or_app; right; exact Hin|]. exists to2, ds2. split; [right; exact A|].
+      split; [exact B|]. split; [rewrite C; rewrite (frame_qdest _ _ _ _ F02); reflexivity|].
+      split; [rewrite <- (frame_markers _ _ F02); exact D|rewrite <- (frame_sanctioned _ _ F02); exact E].
+    + rewrite Ht2 in Hsame. destruct (mem d ds) eqn:Em.
+      * apply mem_In in Em. left. split; [apply in_or_app; left; exact Em|].
+        exists to, ds. split; [left; reflexivity|]. split; [exact Em|]. split; [exact Hsame|]. split; assumption.
+      * right. split.
+        -- intros Hx. apply in_app_or in Hx. destruct Hx as [Hx|Hx]; [|contradiction].
+           apply mem_In in Hx. congruence.
+        -- rewrite Hsame. apply tok_toks. exact T1.
 Qed.
 
-Lemma step_migrate_good s sg e p s' :
-  Inv s -> step_migrate s sg e p = Some s' -> good_step s (OMigrate sg e p) s'.
+(** ** Release of quarantined funds *)
+Lemma release_all_spec to : forall rs sx s',
+  Wk sx -> release_all sx to rs = Some s' ->
+  frame sx s' /\ Wk s' /\
+  forall d, tok s' d = tok sx d \/
+            (exists r, In r rs /\ In d (denoms (q_coins r)) /\ tok sx d = [(QHOLD, 1)] /\ tok s' d = [(to, 1)] /\
+                       restrict (markers sx) QHOLD to [] = true /\ mem QHOLD (sanctioned sx) = false).
 Proof.
-  intros HI. unfold step_migrate. destruct (is_nil sg) eqn:Eb; [discriminate|]. intros H.
-  eapply update_core_good; [exact HI|reflexivity|reflexivity|discriminate| |exact H].
-  apply is_nil_false. exact Eb.
-Qed.
-
-(** ** Plain bank send of the token *)
-Lemma step_send_good s from to d amt s' :
-  Inv s -> step_send s from to d amt = Some s' -> good_step s (OSend from to d amt) s'.
-Proof.
-  intros (HB & HT). unfold step_send.
-  destruct (Z.leb_spec amt 0) as [|Hamt]; [discriminate|].
-  destruct (mem to (blocked s)); [discriminate|].
-  unfold send_one. destruct (restrict (markers s) from to []) eqn:Er; [|discriminate]. intros H.
-  assert (S : sent (fun f => f = from) s s' to) by (apply (move_sent (fun f => f = from) s from to d amt s' HB Hamt eq_refl H)).
-  split; [split; [eapply sent_bankinv; eassumption|eapply sent_tokscope; eassumption]|].
-  destruct S as (_ & S).
-  split.
-  - intros d' h Hh Hch. destruct (S d') as [E|(f & -> & A & B)].
-    + exfalso. apply Hch. rewrite <- Hh. apply holder_same. exact E.
-    + rewrite (holder_single _ _ _ A) in Hh. injection Hh as ->. left. left. reflexivity.
-  - intros d' n Hn Hch. destruct (S d') as [E|(f & -> & A & B)].
-    + exfalso. apply Hch. rewrite <- Hn. symmetry. apply holder_same. exact E.
-    + rewrite (holder_single _ _ _ B) in Hn. injection Hn as <-.
-      intros m Hm Hres. destruct (restrict_to _ _ _ _ _ Er Hm Hres) as [(_ & Hd)|(g & [] & _)].
-      exists from. split; [left; reflexivity|exact Hd].
-Qed.
-
-(** ** Environment steps do not touch tokens or scopes *)
-Lemma env_good s o s' :
-  Inv s -> (forall d, tok s' d = tok s d) -> sups s' = sups s -> scopes s' = scopes s -> good_step s o s'.
-Proof.
-  intros (HB & HT) Ht Hs Hsc. split; [split|split].
-  - intros d. rewrite (sup_same _ _ d Hs), Ht. apply HB.
-  - intros d Hne. rewrite (scope_of_same _ _ d Hsc). apply HT. rewrite <- Ht. exact Hne.
-  - intros d h Hh Hch. exfalso. apply Hch. rewrite <- Hh. apply holder_same. apply Ht.
-  - intros d n Hn Hch. exfalso. apply Hch. rewrite <- Hn. symmetry. apply holder_same. apply Ht.
-Qed.
-
-(** ** MsgAddScopeDataAccess rewrites the scope record only *)
-Lemma step_adddata_good s sg d da s' :
-  Inv s -> step_adddata s sg d da = Some s' -> good_step s (OAddData sg d da) s'.
-Proof.
-  intros (HB & HT). unfold step_adddata.
-  destruct (is_nil sg || is_nil da); [discriminate|].
-  destruct (scope_of s d) as [e|] eqn:Esc; [|discriminate].
-  destruct (existsb (fun x => mem x (sc_data e)) da); [discriminate|].
-  match goal with |- (if ?c then _ else _) = _ -> _ => destruct c; [|discriminate] end.
-  intros [= <-].
-  assert (Htok' : forall d' v, tok (with_scopes s (put (scopes s) d v)) d' = tok s d') by reflexivity.
-  split; [split|split].
-  - intros d'. rewrite (sup_same s _ d') by reflexivity. rewrite Htok'. apply HB.
-  - intros d' Hne. rewrite scope_of_put. destruct (N.eqb_spec d' d) as [->|Hd]; [discriminate|].
-    apply HT. exact Hne.
-  - intros d' h Hh Hch. exfalso. apply Hch. rewrite <- Hh. apply holder_same. apply Htok'.
-  - intros d' n Hn Hch. exfalso. apply Hch. rewrite <- Hn. symmetry. apply holder_same. apply Htok'.
-Qed.
-
-Lemma step_opt_good s o s' : Inv s -> step_opt s o = Some s' -> good_step s o s'.
-Proof.
-  intros HI. destruct o as [sg d parties spec data rollup vo|sg d da|sg ds p|sg e p|sg d|from to d amt|a b k|a b k|a m]; cbn [step_opt].
-  - apply step_write_good; exact HI.
-  - apply step_adddata_good; exact HI.
-  - apply step_update_good; exact HI.
-  - apply step_migrate_good; exact HI.
-  - intros H. apply (step_delete_spec _ _ _ _ HI H).
-  - apply step_send_good; exact HI.
-  - intros [= <-]. apply env_good; [exact HI|reflexivity..].
-  - intros [= <-]. apply env_good; [exact HI|reflexivity..].
-  - intros [= <-]. apply env_good; [exact HI|reflexivity..].
-Qed.
-
-(** ** Histories *)
-Lemma run_op_inv s o : Inv s -> Inv (run_op s o).
-Proof.
-  intros HI. unfold run_op, step. destruct (step_opt s o) as [s'|] eqn:E; [|exact HI].
-  apply (step_opt_good _ _ _ HI E).
-Qed.
-
-Lemma run_inv ops : forall s, Inv s -> Inv (run s ops).
-Proof.
-  unfold run. induction ops as [|o r IH]; intros s HI; cbn [fold_left]; [exact HI|].
-  apply IH. apply run_op_inv. exact HI.
-Qed.
-
-Lemma init_inv sp mks w bl : Inv (init sp mks w bl).
-Proof.
-  split.
-  - intros d. left. split; reflexivity.
-  - intros d Hne. contradiction Hne. reflexivity.
-Qed.
-
-(** *** Token uniqueness *)
-Lemma balance_inv s : Inv s -> forall d,
-  (sup s d = 0 \/ sup s d = 1) /\
-  (forall a, balance s a d = 0 \/ balance s a d = 1) /\
-  (forall a b, balance s a d <> 0 -> balance s b d <> 0 -> a = b) /\
-  (forall a, balance s a d <> 0 -> sup s d = 1 /\ scope_of s d <> None) /\
-  (sup s d = 1 -> exists a, balance s a d = 1).
-Proof.
-  intros (HB & HT) d. unfold balance.
-  destruct (HB d) as [(Hs & Ht)|(Hs & h & Ht)]; rewrite Ht, Hs.
-  - split; [left; reflexivity|]. split; [intros a; left; reflexivity|].
-    split; [intros a b Ha; contradiction Ha; reflexivity|].
-    split; [intros a Ha; contradiction Ha; reflexivity|discriminate].
-  - split; [right; reflexivity|].
-    split; [intros a; rewrite bal_of_single; destruct (N.eqb h a); auto|].
-    split.
-    { intros a b. rewrite !bal_of_single. destruct (N.eqb_spec h a), (N.eqb_spec h b); congruence. }
-    split.
-    { intros a _. split; [reflexivity|]. apply HT. rewrite Ht. discriminate. }
-    intros _. exists h. rewrite bal_of_single, N.eqb_refl. reflexivity.
-Qed.
-
-(** *** The reported value owner is the holder of the token *)
-Lemma value_owner_inv s : Inv s -> forall d,
-  match value_owner s d with
-  | Some h => balance s h d = 1 /\ (forall a, a <> h -> balance s a d = 0) /\ sup s d = 1
-  | None => (forall a, balance s a d = 0) /\ sup s d = 0
-  end /\ denom_owner (tok s d) <> None.
-Proof.
-  intros (HB & _) d. unfold value_owner, balance.
-  destruct (HB d) as [(Hs & Ht)|(Hs & h & Ht)]; rewrite Ht, Hs; cbn [denom_owner].
-  - split; [|discriminate]. split; [intros a; reflexivity|reflexivity].
-  - split; [|discriminate]. split; [rewrite bal_of_single, N.eqb_refl; reflexivity|].
-    split; [|reflexivity]. intros a Ha. rewrite bal_of_single.
-    destruct (N.eqb_spec h a); [congruence|reflexivity].
-Qed.
-
-(** *** Consent *)
-Lemma run_op_consent s o d h :
-  Inv s -> holder s d = Some h -> holder (run_op s o) d <> Some h -> consent s o h.
-Proof.
-  intros HI Hh. unfold run_op, step. destruct (step_opt s o) as [s'|] eqn:E; cbn [fst].
-  - intros Hch. destruct (step_opt_good _ _ _ HI E) as (_ & Hc & _). eapply Hc; eassumption.
-  - intros Hch. contradiction.
-Qed.
-
-Lemma run_op_deposit s o d n :
-  Inv s -> holder (run_op s o) d = Some n -> holder s d <> Some n -> deposit_ok s o n.
-Proof.
-  intros HI. unfold run_op, step. destruct (step_opt s o) as [s'|] eqn:E; cbn [fst].
-  - intros Hn Hch. destruct (step_opt_good _ _ _ HI E) as (_ & _ & Hd). eapply Hd; eassumption.
-  - intros Hn Hch. contradiction.
-Qed.
-
-Lemma delete_burns s sg d :
-  Inv s -> snd (step s (ODelete sg d)) = true ->
-  let s' := run_op s (ODelete sg d) in
-  sup s' d = 0 /\ (forall a, balance s' a d = 0) /\ scope_of s' d = None.
-Proof.
-  intros HI. unfold run_op, step. cbn [step_opt].
-  destruct (step_delete s sg d) as [s'|] eqn:E; cbn [fst snd]; [|discriminate]. intros _.
-  destruct (step_delete_spec _ _ _ _ HI E) as (_ & Hs & Ht & Hsc).
-  split; [exact Hs|]. split; [|exact Hsc]. intros a. unfold balance. rewrite Ht. reflexivity.
+  induction rs as [|r rest IH]; intros sx s' HW; cbn [release_all].
+  - intros [= <-]. split; [apply frame_refl|]. split; [exact HW|]. intros d. left. reflexivity.
+  - destruct (send sx QHOLD to (q_coins r) [] true) as [s1|] eqn:E; [|discriminate]. intros H.
+    destruct (send_spec _ _ _ _ _ _ _ HW E) as (Hr & Hs & F1 & Hall & Ht & _). cbn [dest] in Ht.
+    assert (HW1 : Wk s1) by (eapply wk_after; [exact HW|exact Ht]).
+    destruct (IH s1 s' HW1 H) as (F2 & HW' & HR).
+    split; [eapply frame_trans; eassumption|]. split; [exact HW'|].
+    intros d. specialize (Ht d). destruct (mem d (denoms (q_coins r))) eqn:Em.
+    + apply mem_In in Em. right. exists r. split; [left; reflexivity|]. split; [exact Em|].
+      assert (Hx : tok sx d = [(QHOLD, 1)]).
+      { unfold denoms in Em. apply in_map_iff in Em. destruct Em as (e & <- & He). apply Hall. exact He. }
+      split; [exact Hx|]. split; [|split; assumption].
+      destruct (HR d) as [Hsame|(r' & _ & _ & A & B & _)]; [congruence|]. rewrite Ht in A.
+      injection A as ->. exact B.
+    + destruct (HR d) as [Hsame|(r' & A & B & C & D & G & I)]; [left; rewrite Hsame; exact Ht|].
+      right. exists r'. split; [right; exact A|]. split; [exact B|]. split; [rewrite <- Ht; exact C|]. split; [exact D|].
+      split; [rewrite <- (frame_markers _ _ F1); exact G|rewrite <- (frame_sanctioned _ _ F1); exact I].
 Qed.
